@@ -99,6 +99,15 @@ func toolMain(args []string) error {
 	case "signal":
 		syscall.Kill(os.Getpid(), syscall.SIGKILL)
 		time.Sleep(time.Second)
+	case "sigout": // killed by a signal AFTER printing (partial) output
+		if kind == "sc" {
+			fmt.Print(`[{"file":"-","line":2,"endLine":2,"column":1,"endColumn":2,"level":"warning","code":2000,"message":"partial."}]`)
+		} else {
+			fmt.Printf("<stdin>:1:1 partial output of %s\n", tok)
+		}
+		os.Stdout.Sync()
+		syscall.Kill(os.Getpid(), syscall.SIGKILL)
+		time.Sleep(time.Second)
 	case "garbage":
 		fmt.Print("this is not JSON")
 		os.Exit(1)
